@@ -10,6 +10,7 @@ use crate::{
     codec::*,
     core::{
         base_types::NonZero,
+        error::{CodecError, InvalidPacketHeader},
         properties::ReceiveMaximum,
         utils::{ByteLen, Encode, PacketID, SizedPacket},
     },
@@ -362,6 +363,10 @@ where
                         .ok(); // The caller may have dropped the future; that is not an error.
                 }
             }
+            // CONNACK and AUTH are only expected while connecting.
+            RxPacket::Connack(_) | RxPacket::Auth(_) => {
+                return Err(CodecError::from(InvalidPacketHeader).into());
+            }
             RxPacket::Pubrel(pubrel) => {
                 let packet_id = pubrel.packet_identifier;
                 session.unreleased_inbound.retain(|id| *id != packet_id);
@@ -522,9 +527,8 @@ where
                 Ok(Left(ConnectRsp::try_from(connack)?))
             }
             RxPacket::Auth(auth) => Ok(Right(AuthRsp::try_from(auth)?)),
-            _ => {
-                unreachable!("Unexpected packet type.");
-            }
+            // Any other packet at this point is a protocol violation by the server.
+            _ => Err(CodecError::from(InvalidPacketHeader).into()),
         }
     }
 
@@ -570,9 +574,8 @@ where
                 Ok(Left(ConnectRsp::try_from(connack)?))
             }
             RxPacket::Auth(auth) => Ok(Right(AuthRsp::try_from(auth)?)),
-            _ => {
-                unreachable!("Unexpected packet type.");
-            }
+            // Any other packet at this point is a protocol violation by the server.
+            _ => Err(CodecError::from(InvalidPacketHeader).into()),
         }
     }
 
